@@ -1,5 +1,5 @@
 (* Main.v — request dispatcher of the extracted model (one request per line). *)
-From ArchSim Require Import Model.Base Model.Mem Model.Cache Model.Fmt Model.RV Model.Single Model.Toy Model.Sx.
+From ArchSim Require Import Model.Base Model.Mem Model.Cache Model.Fmt Model.RV Model.Single Model.RVSplit Model.Pipe Model.Toy Model.Sx.
 Open Scope Z_scope.
 
 (* op 1: single-cycle trace.  (1 state nsteps) -> observations after every step, then a
@@ -13,6 +13,19 @@ Fixpoint single_trace (fuel : nat) (s : st) (acc : list sx) : list sx :=
         match single_pipeline_step s with
         | (s', Some f) => rev (Lx [Zx 1; sx_fault f; sx_st s'] :: acc)
         | (s', None) => single_trace k s' (sx_st s' :: acc)
+        end
+  end.
+
+(* op 2: five-stage trace (2 state nsteps hazards) *)
+Fixpoint pipe_trace (fuel : nat) (p : pstate) (acc : list sx) : list sx :=
+  match fuel with
+  | O => rev (Lx [Zx (if pipe_done p then 0 else 2)] :: acc)
+  | S k =>
+      if pipe_done p then rev (Lx [Zx 0] :: acc)
+      else
+        match pipe_step p with
+        | (p', Some f) => rev (Lx [Zx 1; sx_fault f; sx_pstate p'] :: acc)
+        | (p', None) => pipe_trace k p' (sx_pstate p' :: acc)
         end
   end.
 
@@ -81,6 +94,9 @@ Definition dispatch (req : sx) : sx :=
   let op := dz (dnth req 0) in
   if op =? 1 then
     Lx (single_trace (Z.to_nat (dz (dnth req 2))) (dst (dnth req 1)) [sx_st (dst (dnth req 1))])
+  else if op =? 2 then
+    let p0 := pipe_init (dst (dnth req 1)) (dbool (dnth req 3)) in
+    Lx (pipe_trace (Z.to_nat (dz (dnth req 2))) p0 [sx_pstate p0])
   else if op =? 10 then
     let s0 := dtstate (dnth req 1) in
     Lx (toy_trace (dl (dnth req 2)) s0 [Lx [Lx []; sx_tstate s0]])
